@@ -1046,7 +1046,7 @@ def single_replay(ob, why, sig):
 class C07(Prop):
     pid = "C07"
     prebuilt = ["Base/Hex.v", "Base/Vec3.v", "Model/C07_EdgeList.v", "Model/C07_Dir.v",
-                "Proofs/C07_EdgeList.v", "Proofs/C07_Dir.v"]
+                "Proofs/C07_EdgeList.v", "Proofs/C07_Dir.v", "Model/C07_Series.v", "Proofs/C07_Series.v"]
     gen_dependent_files = ["Gen/C07/Tables.v"]
     property_files = ["Properties/C07.v"]
     trusted = [
@@ -1084,7 +1084,9 @@ class C07(Prop):
                     "operations; (c) random edges near/far from the validity thresholds: Coq decides eligible / not eligible; "
                     "(d) Loft.from_series over 3..6 cross-sections and Revolve, then moved as a whole by 0..3 of translate/rotate/scale/"
                     "mirror/invert/copy: direct oracle only (one entry per side edge, drawing the described arc/spline from its first "
-                    "vertex to its second, wire length); distinct by canonical JSON of the input")
+                    "vertex to its second, wire length); for the series cases, the side edges found on the operation right after "
+                    "Loft.from_series and after one invert() (kind of edge data, its points as positions in the given face list) vs "
+                    "Model/C07_Series from_series / invert (vm_compute); distinct by canonical JSON of the input")
         rows = getattr(self, "_rows", None)
         if rows is None:
             rows = tab_single()
@@ -1139,8 +1141,15 @@ class C07(Prop):
         # (d) side edges made by constructors (Loft.from_series, Revolve), operation then moved as a whole (oracle only)
         from props import C07_ctor
         seen_ctor = set()
+        scases = []   # (faces, observation) of the series cases: Model/C07_Series against the constructor
         for i in range(ctx.n(120, 2500)):
             c = C07_ctor.gen_ctor_case(ctx.rng)
+            if c["ctor"] == "series" and len(scases) < ctx.n(200, 1000):
+                try:
+                    scases.append((c["faces"], C07_ctor.series_observation(c["faces"])))
+                    res.count("series-model:%d faces" % len(c["faces"]))
+                except Exception as e:  # noqa: BLE001  (the oracle below reports the raising constructor)
+                    ctx.log("S3: series observation failed: %s" % e)
             res.evaluations += 1
             res.count("ctor:%s:%d transforms" % (c["ctor"], len(c["transforms"])))
             res.distinct.add("ctor:" + json.dumps(c, sort_keys=True))
@@ -1149,6 +1158,20 @@ class C07(Prop):
                     seen_ctor.add(f["sig"])
                     small = C07_ctor.shrink_ctor(c, f["sig"])
                     res.oracle_failures.append(([g for g in C07_ctor.check_ctor(small) if g["sig"] == f["sig"]] or [f])[0])
+        # two fixed series at the border of the kinds: two faces (no edge), three faces (arc)
+        for fs in ([[[0.0, 0.0, 0.0], [1.0, 0.0, 0.0], [1.0, 1.0, 0.0], [0.0, 1.0, 0.0]],
+                    [[0.0, 0.0, 1.0], [1.0, 0.0, 1.0], [1.0, 1.0, 1.0], [0.0, 1.0, 1.0]]],
+                   [[[0.0, 0.0, 0.0], [1.0, 0.0, 0.0], [1.0, 1.0, 0.0], [0.0, 1.0, 0.0]],
+                    [[0.2, 0.0, 0.5], [1.2, 0.0, 0.5], [1.2, 1.0, 0.5], [0.2, 1.0, 0.5]],
+                    [[0.0, 0.0, 1.0], [1.0, 0.0, 1.0], [1.0, 1.0, 1.0], [0.0, 1.0, 1.0]]]):
+            scases.append((fs, C07_ctor.series_observation(fs)))
+            res.count("series-model:%d faces" % len(fs))
+        res.evaluations += len(scases)
+        pers = 250
+        for k in range(0, len(scases), pers):
+            shards.append(("scases_%d" % (k // pers), C07_ctor.series_cases_file([ob for (_f, ob) in scases[k:k + pers]])))
+        if scases:
+            res.samples.append(dict(series_model=scases[0][1]))
         per = max(40, (len(goals) + 13) // 14)
         for k in range(0, len(goals), per):
             shards.append(("ncases_%d" % (k // per), N_HEAD + "\n".join(t for (_g, t) in goals[k:k + per])))
@@ -1204,7 +1227,13 @@ class C07(Prop):
             if rc != 0:
                 res.error = "case file %s failed to compile: %s" % (name, (se or so)[-800:])
                 return res
-            if name.startswith("ucases"):
+            if name.startswith("scases"):
+                lo = int(name.split("_")[1]) * pers
+                for i in parse_id_list(so):
+                    fs, ob = scases[lo + i]
+                    res.mismatches.append(dict(what="side edges of Loft.from_series (as built / after invert) vs Model/C07_Series",
+                                               faces=fs, face_ids=ob["faces"], built=ob["built"], inverted=ob["inverted"]))
+            elif name.startswith("ucases"):
                 for i in parse_id_list(so):
                     prog, ob = ucases[i]
                     res.mismatches.append(dict(what="edge list", program=prog, requests=ob["requests"], impl=ob["impl"]))
